@@ -583,4 +583,4 @@ impl AymBackend for AymPrecise {
 
 #[cfg(kani)]
 #[path = "/verif/hooks/aym/precise.rs"]
-mod verif_hooks;
+pub(crate) mod verif_hooks;
